@@ -55,7 +55,9 @@ func noMapCacheInRuntime(c *Ctx) {
 		return ok && nt.Obj().Name() == "MapCache" && nt.Obj().Pkg() != nil && nt.Obj().Pkg().Path() == pkgGraphql
 	}
 	nfx := 0
-	for _, fn := range c.W.FuncsIn(func(p string) bool { return isRuntimePkg(p) || strings.HasPrefix(p, modPath("verif_fixtures/sharedstate")) }) {
+	for _, fn := range c.W.FuncsIn(func(p string) bool {
+		return isRuntimePkg(p) || strings.HasPrefix(p, modPath("verif_fixtures/sharedstate"))
+	}) {
 		fx := strings.Contains(fn.String(), "verif_fixtures")
 		if fn.Signature.Recv() != nil && isMapCache(fn.Signature.Recv().Type()) {
 			continue
@@ -203,5 +205,51 @@ func dispatchDoneLast(c *Ctx) {
 	}
 	if n == 0 {
 		c.R.Fail("dispatch-done-last: FieldSet.Dispatch starts no goroutine")
+	}
+}
+
+// rawQueryAfterMutators: Executor.CreateOperationContext reads RawParams.Query (to record it as OperationContext.RawQuery and
+// to parse it) only after every OperationParameterMutator has run: the persisted-query extension substitutes the registered
+// text there, and the text recorded and the text executed must be that one.
+func rawQueryAfterMutators(c *Ctx) {
+	c.R.Rule("query-read-after-mutators", "Executor.CreateOperationContext: no call of MutateOperationParameters is reachable from a read of RawParams.Query (the text is recorded and parsed after the parameter mutators ran)", 1)
+	fn := c.fn(pkgExecutor, "*Executor.CreateOperationContext")
+	if fn == nil {
+		return
+	}
+	var muts []ssa.Instruction
+	for _, call := range an.CallsIn(fn, func(ci ssa.CallInstruction, _ an.CalleeInfo) bool {
+		return ci.Common().IsInvoke() && ci.Common().Method.Name() == "MutateOperationParameters"
+	}) {
+		muts = append(muts, call)
+	}
+	if len(muts) == 0 {
+		c.R.Fail("query-read-after-mutators: CreateOperationContext calls no parameter mutator")
+		return
+	}
+	n := 0
+	for _, b := range fn.Blocks {
+		for _, in := range b.Instrs {
+			u, ok := in.(*ssa.UnOp)
+			if !ok {
+				continue
+			}
+			fa, ok := u.X.(*ssa.FieldAddr)
+			if !ok || !isRawParamsField(fa, "Query") {
+				continue
+			}
+			n++
+			var bad ssa.Instruction
+			for _, m := range muts {
+				if an.CanReach(in, m) {
+					bad = m
+				}
+			}
+			c.R.Check(bad == nil, sprintf("CreateOperationContext/query-read#%d", n), c.ipos(in), "read after the mutators",
+				"RawParams.Query is read before the parameter mutators have run: for a hash-only persisted-query request the operation context records (or parses) the empty text instead of the registered one")
+		}
+	}
+	if n == 0 {
+		c.R.Fail("query-read-after-mutators: CreateOperationContext never reads RawParams.Query")
 	}
 }
